@@ -259,7 +259,7 @@ func run(prop, tier string, budget float64, evidence, known, replays string, wor
 		return 2
 	}
 	if budget == 0 {
-		budget = 100
+		budget = 150
 		if tier == "thorough" {
 			budget = 900
 		}
